@@ -481,6 +481,26 @@ func NewBatch(prop, tier string, seed uint64) *Batch {
 				b.Fixed = append(b.Fixed, g)
 			}
 		}
+		// byte-carry boundaries of the stored index: signatures at 2^8-1, 2^16-1
+		// (and, thorough only, 2^24-1: ~15 min of fast-forwarding on one worker)
+		carry := []struct {
+			h   uint8
+			idx uint32
+		}{{18, 1<<16 - 1}, {18, 1<<17 - 1}, {10, 1<<8 - 1}, {10, 1<<9 - 1}}
+		if thorough {
+			carry = append([]struct {
+				h   uint8
+				idx uint32
+			}{{24, 1<<24 - 1}}, carry...)
+		}
+		for ci, cb := range carry {
+			ep := &Episode{Kind: "xmss", Profile: "c02-carry", Height: cb.h, Hash: uint8(ci % 3), Stub: true, SeedHex: seedHex(fr), Twin: "none", Drain: "none"}
+			ep.Ops = []Op{{K: "jump", J: cb.idx - 1}, signOp(fr, false), signOp(fr, false), signOp(fr, false), {K: "jump", J: cb.idx - 1}, {K: "jump", J: cb.idx + 2}, signOp(fr, false)}
+			if cb.idx+1 == uint32(1)<<cb.h { // the boundary is the end of the key
+				ep.Ops = []Op{{K: "jump", J: cb.idx - 1}, signOp(fr, false), signOp(fr, false), signOp(fr, false), {K: "jump", J: 0}, signOp(fr, false)}
+			}
+			b.Fixed = append(b.Fixed, ep)
+		}
 		b.Random = 700
 		if thorough {
 			b.Random = 12000
